@@ -1,8 +1,13 @@
 package main
 
 import (
+	"bytes"
+	"context"
 	"fmt"
+	"os"
+	"path/filepath"
 	"strings"
+	"time"
 
 	"github.com/protomaps/go-pmtiles/pmtiles"
 )
@@ -392,7 +397,118 @@ func c08metaRun(seed uint64, kind string, warm, pre, p1, p2 int) *srvRun {
 	return sr
 }
 
+// c08backend: the real local-directory and HTTP buckets under the server, sequential requests around replacements (no gating: the
+// version tags are the backends' own - mtime/size for files, the origin's ETag over HTTP). Every answer must be the one of the
+// version current when the request was made; a replacement completed before a request began never makes it fail.   case: backend <kind> <seed>
+func c08backendRun(kind string, seed uint64) []string {
+	r := &rng{s: seed}
+	var viol []string
+	dir, _ := os.MkdirTemp("", "vh-c08b")
+	defer os.RemoveAll(dir)
+	mk := func(tag int) *srvVersion {
+		vr := &rng{s: seed + uint64(tag)*7919}
+		ir := &rng{s: seed * 31}
+		ne := 3 + ir.intn(5)
+		var es []Ent
+		id, off := uint64(ir.intn(3)), uint64(0)
+		for i := 0; i < ne; i++ {
+			run := uint32(1 + ir.intn(3))
+			l := uint32(1 + vr.intn(40))
+			es = append(es, Ent{ID: id, Off: off, Len: l, Run: run})
+			off += uint64(l)
+			id += uint64(run) + uint64(ir.intn(3))
+		}
+		zmax, _, _ := pmtiles.IDToZxy(es[len(es)-1].ID + uint64(es[len(es)-1].Run))
+		a := buildArchive(vr, es, vr.bytes(int(off)), archOpts{tree: treeOpts{depth: vr.intn(2), fan: 2, gzip: vr.chance(50), shorthand: true},
+			tileType: 2, tileComp: uint8(1 + tag%4), meta: fmt.Sprintf(`{"v":%d}`, tag), minZoom: 0, maxZoom: zmax, pad: tag * 5})
+		return &srvVersion{id: tag - 1, name: 0, tag: tag, arch: a}
+	}
+	var srv *pmtiles.Server
+	var put func(v *srvVersion)
+	if kind == "file" {
+		put = func(v *srvVersion) {
+			tmp := filepath.Join(dir, "upload.tmp")
+			os.WriteFile(tmp, v.arch.Bytes, 0o644)
+			mt := time.Unix(1700000000+int64(v.tag)*3, 0)
+			os.Chtimes(tmp, mt, mt)
+			os.Rename(tmp, filepath.Join(dir, "a0.pmtiles"))
+		}
+		srv, _ = pmtiles.NewServer("", dir, quietLogger, 8, "http://pub")
+	} else {
+		c18once.Do(func() { c18orig = newOrigin() })
+		key := fmt.Sprintf("b%d/a0.pmtiles", seed)
+		put = func(v *srvVersion) {
+			c18orig.mu.Lock()
+			c18orig.fault = ""
+			c18orig.objs[key] = v.arch.Bytes
+			c18orig.mu.Unlock()
+		}
+		srv, _ = pmtiles.NewServer(c18orig.srv.URL+fmt.Sprintf("/b%d", seed), "", quietLogger, 8, "http://pub")
+	}
+	if srv == nil {
+		return []string{"harness: the server could not be created on the " + kind + " backend"}
+	}
+	srv.Start()
+	expect := func(v *srvVersion, what string) {
+		var st int
+		var hd map[string]string
+		var body []byte
+		var wantSt int
+		var wantBody []byte
+		wantH := v.hdrsOf("")
+		switch what {
+		case "meta", "json":
+			path := "/a0/metadata"
+			if what == "json" {
+				path = "/a0.json"
+			}
+			st, hd, body = srv.Get(context.Background(), path)
+			wantSt, wantBody = v.pathAnswer(what)
+			wantH = v.hdrsOf(what)
+		default:
+			e := v.arch.Ents[r.intn(len(v.arch.Ents))]
+			z, x, y := pmtiles.IDToZxy(e.ID + uint64(r.intn(int(e.Run)+1)))
+			st, hd, body = srv.Get(context.Background(), fmt.Sprintf("/a0/%d/%d/%d.png", z, x, y))
+			wantSt, wantBody = v.answerOf(uint64(z), uint64(x), uint64(y), 2)
+		}
+		got := hd["Content-Type"] + "|" + hd["Content-Encoding"]
+		if st != wantSt || (st == 200 && (!bytes.Equal(body, wantBody) || got != wantH)) {
+			viol = append(viol, fmt.Sprintf("%s backend, version v%d current since before the request: %s request answered %d %s [%s], that version answers %d %s [%s]",
+				kind, v.tag, what, st, trunc(hx(body)), got, wantSt, trunc(hx(wantBody)), wantH))
+		}
+	}
+	v1 := mk(1)
+	put(v1)
+	expect(v1, "tile")
+	expect(v1, []string{"meta", "json", "tile"}[r.intn(3)])
+	v2 := mk(2)
+	put(v2)
+	expect(v2, []string{"tile", "meta", "json"}[r.intn(3)])
+	expect(v2, "tile")
+	v3 := mk(3)
+	put(v3)
+	v4 := mk(4)
+	put(v4) // two replacements between requests
+	expect(v4, []string{"json", "tile", "meta"}[r.intn(3)])
+	expect(v4, "tile")
+	expect(v4, "meta")
+	return viol
+}
+
 func c08(r *rng, tier string, o *out) {
+	nb := 6
+	if tier == "thorough" || tier == "shard" {
+		nb = 10
+	}
+	for c := 0; c < nb; c++ {
+		line := fmt.Sprintf("backend %s %d", []string{"file", "http"}[c%2], r.next()%1000000)
+		impl, viol := runCase("C08", line)
+		idx := o.emit(line, impl, true)
+		o.count("real_backend_" + []string{"file", "http"}[c%2])
+		for _, v := range viol {
+			o.violation(idx, v)
+		}
+	}
 	msets := 1
 	if tier == "thorough" {
 		msets = 10
@@ -482,6 +598,15 @@ func c08(r *rng, tier string, o *out) {
 // srvReplay re-executes a recorded schedule (case line) against the real server.
 func srvReplay(line string) (string, []string) {
 	f := strings.Fields(line)
+	if f[0] == "backend" {
+		var seed uint64
+		fmt.Sscan(f[2], &seed)
+		viol := c08backendRun(f[1], seed)
+		if len(viol) > 0 {
+			return "violated", viol
+		}
+		return "ok", nil
+	}
 	if f[0] == "micro" {
 		var seed uint64
 		var variant int
